@@ -2708,6 +2708,15 @@ namespace bloch::runtime {
                     throw BlochError(ErrorCategory::Runtime, bin->line, bin->column,
                                      "modulo by zero");
                 }
+                // x % -1 is 0 for every x; computing it traps for the most negative value.
+                if (rInt == -1)
+                    return hasLong ? [] {
+                        Value v;
+                        v.type = Value::Type::Long;
+                        v.longValue = 0;
+                        return v;
+                    }()
+                                   : Value{Value::Type::Int, 0};
                 if (hasLong) {
                     Value v;
                     v.type = Value::Type::Long;
